@@ -253,3 +253,17 @@ func TestF12_ZeroSumSign(t *testing.T) {
 		t.Errorf("(+0)+(+0) = -0")
 	}
 }
+
+// F11: formatting with the rounding position at or above the leading digit
+func TestF11_FormatAboveLeadingDigit(t *testing.T) {
+	for _, c := range []struct {
+		s    string
+		prec int
+		want string
+	}{{"0.0087890625", 2, "0.01"}, {"0.6", 0, "1"}, {"0.5", 0, "0"}, {"-0.6", 0, "-1"}, {"0.0049", 2, "0.00"}, {"0.00096", 3, "0.001"}} {
+		x := dec(c.s, 30, decimal.ToNearestEven)
+		if got := x.Text('f', c.prec); got != c.want {
+			t.Errorf("Text('f', %d) of %s = %s, want %s", c.prec, c.s, got, c.want)
+		}
+	}
+}
